@@ -1,2 +1,59 @@
-From VF Require Import Base Gen_Errors Lexer Properties.C04.
-Check (C04_skip_suffix : forall p c, exists pre, c = pre ++ skip_while p c).
+(* GENERATED ONCE by tools/pin.py from Properties/C04.v and committed: the pinned statements. *)
+From VF.Properties Require C04.
+From VF Require Import Base Gen_Errors Lexer Lexer_proofs.
+Open Scope N_scope.
+
+Check (VF.Properties.C04.C04_lex_total : forall input, exists ts, tokenize input = Val ts).
+Check (VF.Properties.C04.C04_lex_params_total : forall input, exists ts, tokenize_params input = Val ts).
+Check (VF.Properties.C04.C04_lex_progress : forall l t l', lex_next l = Val (STok t l') ->
+  (length (chars l') < length (chars l))%nat).
+Check (VF.Properties.C04.C04_tokenize_shape : forall l ts, tokenize_from l = Val ts ->
+  exists toks, ts = map IOk toks \/ exists e, ts = map IOk toks ++ [IErr e]).
+Check (VF.Properties.C04.C04_lex_error_class : forall l e, lex_next l = Val (SErr e) ->
+  ((-199 <= e <= -100)%Z \/ e = DataOutOfRange)).
+Check (VF.Properties.C04.C04_mnemonic_13 : forall m rest com, (length m = 13)%nat ->
+  (exists x m', m = x :: m' /\ is_alpha x = true) ->
+  forallb is_mnemonic_char m = true ->
+  lex_next (mkLexer (m ++ rest) true com) = Val (SErr ProgramMnemonicTooLong)).
+Check (VF.Properties.C04.C04_chardata_13 : forall m rest com, (length m = 13)%nat ->
+  (exists x m', m = x :: m' /\ is_alpha x = true) ->
+  forallb is_mnemonic_char m = true ->
+  lex_next (mkLexer (m ++ rest) false com) = Val (SErr CharacterDataTooLong)).
+Check (VF.Properties.C04.C04_unterminated_string : forall q body hdr_com, ((q =? 34) || (q =? 39))%N = true ->
+  forallb (fun b => negb (b =? q)%N && is_ascii b) body = true ->
+  lex_next (mkLexer (q :: body) false hdr_com) = Val (SErr InvalidStringData)).
+Check (VF.Properties.C04.C04_non_ascii_in_string : forall q pre b rest com, ((q =? 34) || (q =? 39))%N = true ->
+  forallb (fun b => negb (b =? q)%N && is_ascii b) pre = true -> is_ascii b = false ->
+  lex_next (mkLexer (q :: pre ++ b :: rest) false com) = Val (SErr InvalidCharacter)).
+Check (VF.Properties.C04.C04_non_ascii_outside : forall b rest hdr com, is_ascii b = false ->
+  lex_next (mkLexer (b :: rest) hdr com) = Val (SErr InvalidCharacter)).
+Check (VF.Properties.C04.C04_block_truncated : forall nd lenfield payload com,
+  (1 <= length lenfield <= 9)%nat -> nd = (48 + N.of_nat (length lenfield))%N ->
+  forallb is_digit lenfield = true ->
+  (N.of_nat (length payload) < fst (radix_digits 10 lenfield 0 0))%N ->
+  lex_next (mkLexer (35 :: nd :: lenfield ++ payload) false com) = Val (SErr InvalidBlockData)).
+Check (VF.Properties.C04.C04_block_bad_header : forall nd lenfield rest com, (1 <= length lenfield <= 9)%nat ->
+  nd = (48 + N.of_nat (length lenfield))%N -> forallb is_digit lenfield = false ->
+  lex_next (mkLexer (35 :: nd :: lenfield ++ rest) false com) = Val (SErr InvalidBlockData)).
+Check (VF.Properties.C04.C04_doubled_colon : forall rest hdr com,
+  lex_next (mkLexer (58 :: 58 :: rest) hdr com) = Val (SErr InvalidSeparator)).
+Check (VF.Properties.C04.C04_colon_in_data : forall rest com,
+  lex_next (mkLexer (58 :: rest) false com) = Val (SErr InvalidSeparator)).
+Check (VF.Properties.C04.C04_colon_in_common : forall rest hdr,
+  lex_next (mkLexer (58 :: rest) hdr true) = Val (SErr InvalidSeparator)).
+Check (VF.Properties.C04.C04_comma_in_header : forall rest com,
+  lex_next (mkLexer (44 :: rest) true com) = Val (SErr HeaderSeparatorError)).
+Check (VF.Properties.C04.C04_doubled_comma : forall w rest com, forallb is_ws w = true ->
+  lex_next (mkLexer (44 :: w ++ 44 :: rest) false com) = Val (SErr SyntaxError)).
+Check (VF.Properties.C04.C04_comma_after_header_sep : forall x w rest hdr com, is_ws x = true -> (x =? 10)%N = false ->
+  forallb is_ws w = true ->
+  lex_next (mkLexer (x :: w ++ 44 :: rest) hdr com) = Val (SErr SyntaxError)).
+Check (VF.Properties.C04.C04_missing_separator_after_chardata : forall m w y rest com, (1 <= length m <= 12)%nat ->
+  (exists x m', m = x :: m' /\ is_alpha x = true) -> forallb is_mnemonic_char m = true ->
+  forallb is_ws w = true ->
+  is_mnemonic_char y = false -> is_ws y = false -> (y =? 44)%N = false -> (y =? 59)%N = false ->
+  lex_next (mkLexer (m ++ w ++ y :: rest) false com) = Val (SErr InvalidCharacterData)).
+Check (VF.Properties.C04.C04_missing_separator_after_string : forall q body w y rest com, ((q =? 34) || (q =? 39))%N = true ->
+  forallb (fun b => negb (b =? q)%N && is_ascii b) body = true -> forallb is_ws w = true ->
+  is_ws y = false -> (y =? 44)%N = false -> (y =? 59)%N = false -> (y =? q)%N = false ->
+  lex_next (mkLexer (q :: body ++ q :: w ++ y :: rest) false com) = Val (SErr SuffixNotAllowed)).
